@@ -65,6 +65,7 @@ type Violation struct {
 	Cfg    json.RawMessage `json:"cfg,omitempty"`
 	Extra  json.RawMessage `json:"extra,omitempty"`
 	Detail string          `json:"detail"`
+	GoTest string          `json:"go_test,omitempty"`
 	Tier   string          `json:"tier,omitempty"`
 }
 
